@@ -6,7 +6,7 @@ namespace J2M
 
 /-! ## sorted-set insertion -/
 
-theorem mem_insertUniq {x a : String} {ys : List String} : a ∈ insertUniq x ys ↔ a = x ∨ a ∈ ys := by
+theorem mem_insertUniqX {x a : String} {ys : List String} : a ∈ insertUniq x ys ↔ a = x ∨ a ∈ ys := by
   induction ys with
   | nil => simp [insertUniq]
   | cons y ys ih =>
@@ -21,19 +21,19 @@ theorem mem_insertUniq {x a : String} {ys : List String} : a ∈ insertUniq x ys
         · rintro (h | h | h) <;> simp [h]
         · rintro (h | h | h) <;> simp [h]
 
-theorem mem_foldl_insertUniq {a : String} {vs init : List String} :
+theorem mem_foldl_insertUniqX {a : String} {vs init : List String} :
     a ∈ vs.foldl (fun acc x => insertUniq x acc) init ↔ a ∈ init ∨ a ∈ vs := by
   induction vs generalizing init with
   | nil => simp
   | cons v vs ih =>
-    simp only [List.foldl_cons, ih, mem_insertUniq, List.mem_cons]
+    simp only [List.foldl_cons, ih, mem_insertUniqX, List.mem_cons]
     constructor
     · rintro ((h | h) | h) <;> simp [h]
     · rintro (h | h | h) <;> simp [h]
 
 /-! ## flattening nested unions -/
 
-theorem inh_flatten {ov acc g} {ts : List Ty} {v} (h : InhX ov acc g (.union ts) v) :
+theorem inhX_flatten {ov acc g} {ts : List Ty} {v} (h : InhX ov acc g (.union ts) v) :
     ∃ t ∈ flattenUnion ts, InhX ov acc g t v := by
   induction ts using flattenUnion.induct with
   | case1 => obtain ⟨t, hm, _⟩ := inh_union_iff.1 h; simp at hm
@@ -97,14 +97,14 @@ theorem flattenUnion_eq_self {ts : List Ty} (h : ∀ t ∈ ts, t.isUnion = false
 
 /-! ## the de-duplication loop -/
 
-theorem handleType_nonlit (st : UState) (t : Ty) (h : t.isLit = false) :
+theorem handleType_nonlitX (st : UState) (t : Ty) (h : t.isLit = false) :
     handleType st t =
       { (if st.hashes.contains (hashStr t) then st
           else { st with unique := t :: st.unique, hashes := hashStr t :: st.hashes }) with
         useLit := (if t.isStr then false else st.useLit) && st.useLit } := by
   cases t <;> first | rfl | simp [Ty.isLit] at h
 
-theorem handleType_lit (st : UState) (ov : Bool) (vs : List String) :
+theorem handleType_litX (st : UState) (ov : Bool) (vs : List String) :
     handleType st (.lit ov vs) =
       if !st.useLit then { st with useLit := false }
       else if ov then { st with useLit := false }
@@ -125,7 +125,7 @@ theorem UInv.init : UInv ⟨[], [], true, []⟩ [] :=
 
 theorem UInv.step {st done} (inv : UInv st done) (t : Ty) : UInv (handleType st t) (t :: done) := by
   by_cases hl : t.isLit = false
-  · rw [handleType_nonlit st t hl]
+  · rw [handleType_nonlitX st t hl]
     refine ⟨?_, ?_, ?_, ?_, ?_, ?_⟩
     · split <;> simp [inv.hashes_eq]
     · intro u hu
@@ -175,7 +175,7 @@ theorem UInv.step {st done} (inv : UInv st done) (t : Ty) : UInv (handleType st 
       intro s hs
       obtain ⟨vs', hvs', h⟩ := inv.lits_sub s hs
       exact ⟨vs', List.mem_cons_of_mem _ hvs', h⟩
-    rw [handleType_lit]
+    rw [handleType_litX]
     split
     · exact ⟨inv.hashes_eq, fun u hu => List.mem_cons_of_mem _ (inv.unique_sub u hu),
         fun t' ht' hl' => inv.nonlit t' (hdone t' ht' hl') hl', by simp, hsub, by simp⟩
@@ -191,13 +191,13 @@ theorem UInv.step {st done} (inv : UInv st done) (t : Ty) : UInv (handleType st 
         · intro hu2 vs' hvs' s hs
           simp only at hu2
           show s ∈ vs.foldl (fun acc x => insertUniq x acc) st.lits
-          rw [mem_foldl_insertUniq]
+          rw [mem_foldl_insertUniqX]
           rcases List.mem_cons.1 hvs' with e | h
           · simp only [Ty.lit.injEq, true_and] at e; subst e; exact Or.inr hs
           · exact Or.inl (inv.lits hu2 vs' h s hs)
         · intro s hs
           have hs' : s ∈ vs.foldl (fun acc x => insertUniq x acc) st.lits := hs
-          rw [mem_foldl_insertUniq] at hs'
+          rw [mem_foldl_insertUniqX] at hs'
           rcases hs' with h | h
           · obtain ⟨vs', hvs', h'⟩ := inv.lits_sub s h
             exact ⟨vs', List.mem_cons_of_mem _ hvs', h'⟩
@@ -228,7 +228,7 @@ theorem mkLit_cases (c : LitCfg) (vals : List String) :
   unfold mkLit; split <;> simp
 
 /-- the part of `mkUnionMembers` after the loop -/
-def finishUnion (c : LitCfg) (st : UState) : List Ty :=
+def finishUnionX (c : LitCfg) (st : UState) : List Ty :=
   let (st, useLit) :=
     if !st.lits.isEmpty && st.useLit then
       match mkLit c st.lits with
@@ -240,16 +240,16 @@ def finishUnion (c : LitCfg) (st : UState) : List Ty :=
     else st
   st.unique.reverse
 
-theorem mkUnionMembers_eq (c : LitCfg) (ts : List Ty) :
-    mkUnionMembers c ts = finishUnion c (unionState ts) := rfl
+theorem mkUnionMembers_eqX (c : LitCfg) (ts : List Ty) :
+    mkUnionMembers c ts = finishUnionX c (unionState ts) := rfl
 
 theorem mem_finishUnion {c : LitCfg} {st : UState} {u : Ty} :
-    u ∈ finishUnion c st ↔
+    u ∈ finishUnionX c st ↔
       u ∈ st.unique ∨
       (u = .lit false st.lits ∧ st.lits ≠ [] ∧ st.useLit = true ∧ mkLit c st.lits = .lit false st.lits) ∨
       (u = .str ∧ hashStr .str ∉ st.hashes ∧
         ¬ (st.useLit = true ∧ (st.lits = [] ∨ mkLit c st.lits = .lit false st.lits))) := by
-  unfold finishUnion
+  unfold finishUnionX
   by_cases hU : st.useLit = true
   · by_cases hL : st.lits = []
     · simp [hU, hL]
@@ -271,18 +271,18 @@ theorem mem_mkUnionMembers {c : LitCfg} {ts : List Ty} {u : Ty} :
       (u = .str ∧ hashStr .str ∉ (unionState ts).hashes ∧
         ¬ ((unionState ts).useLit = true ∧
             ((unionState ts).lits = [] ∨ mkLit c (unionState ts).lits = .lit false (unionState ts).lits))) := by
-  rw [mkUnionMembers_eq]; exact mem_finishUnion
+  rw [mkUnionMembers_eqX]; exact mem_finishUnion
 
 /-! ## soundness of `DUnion(*ts)` -/
 
 /-- "equal hash strings ⇒ same inhabitants" on the members that `DUnion(*ts)` compares.
     `str` is included because the constructor may add it and looks its hash string up among the members. -/
-def HashSound (ov : Bool) (acc : Accepts) (g : ModelLookup) (ts : List Ty) : Prop :=
+def HashSoundX (ov : Bool) (acc : Accepts) (g : ModelLookup) (ts : List Ty) : Prop :=
   ∀ a b, a ∈ Ty.str :: flattenUnion ts → b ∈ Ty.str :: flattenUnion ts → hashStr a = hashStr b →
     ∀ v, InhX ov acc g a v ↔ InhX ov acc g b v
 
 theorem mkUnion_sound {ov acc g} {c : LitCfg} {ts : List Ty} {t : Ty} {v : Json}
-    (hs : HashSound ov acc g ts) (ht : t ∈ flattenUnion ts) (hi : InhX ov acc g t v) :
+    (hs : HashSoundX ov acc g ts) (ht : t ∈ flattenUnion ts) (hi : InhX ov acc g t v) :
     InhX ov acc g (.union (mkUnionMembers c ts)) v := by
   have inv := unionState_inv ts
   by_cases hl : t.isLit = false
@@ -324,9 +324,9 @@ theorem mkUnion_sound {ov acc g} {c : LitCfg} {ts : List Ty} {t : Ty} {v : Json}
 
 /-- version for a direct (possibly union-typed) argument of `DUnion(*ts)` -/
 theorem mkUnion_sound' {ov acc g} {c : LitCfg} {ts : List Ty} {t : Ty} {v : Json}
-    (hs : HashSound ov acc g ts) (ht : t ∈ ts) (hi : InhX ov acc g t v) :
+    (hs : HashSoundX ov acc g ts) (ht : t ∈ ts) (hi : InhX ov acc g t v) :
     InhX ov acc g (.union (mkUnionMembers c ts)) v := by
-  obtain ⟨t', hm, ht'⟩ := inh_flatten (inh_union_iff.2 ⟨t, ht, hi⟩)
+  obtain ⟨t', hm, ht'⟩ := inhX_flatten (inh_union_iff.2 ⟨t, ht, hi⟩)
   exact mkUnion_sound hs hm ht'
 
 /-- every member of `DUnion(*ts)` is a flattened argument, `str`, or the folded literal -/
@@ -340,8 +340,8 @@ theorem mkUnionMembers_forall {P : Ty → Prop} {c : LitCfg} {ts : List Ty}
   · rw [h.1]; exact hlit _ h.2.1
   · rw [h.1]; exact hstr
 
-theorem HashSound.of_on {ov acc g} {U : Ty → Prop} (h : HashSoundOn ov acc g U) {ts : List Ty}
-    (hstr : U .str) (hts : ∀ t ∈ flattenUnion ts, U t) : HashSound ov acc g ts := by
+theorem HashSoundX.of_on {ov acc g} {U : Ty → Prop} (h : HashSoundOn ov acc g U) {ts : List Ty}
+    (hstr : U .str) (hts : ∀ t ∈ flattenUnion ts, U t) : HashSoundX ov acc g ts := by
   intro a b ha hb
   have hU : ∀ x ∈ Ty.str :: flattenUnion ts, U x := by
     intro x hx
